@@ -9,6 +9,7 @@ import dataclasses
 from itertools import combinations
 
 from .. import env, gen, tcpwork
+from ..fakes import tcp_device as td
 from ..fakes import udp
 from ..prop import Prop
 from ..ref import broadcast as rb
@@ -23,12 +24,25 @@ UDP = {1: 20002, 2: 20003}
 TCP = {1: 9957, 2: 10000}
 
 
+def socket_on(port):
+    import socket
+
+    sock = socket.socket(socket.AF_INET, socket.SOCK_DGRAM)
+    try:
+        sock.bind(("0.0.0.0", port))
+        return sock
+    except OSError:
+        sock.close()
+        return None
+
+
 class C19(Prop):
     id = "C19"
     level = "exploration"
     technique = "exhaustive invariant check over the live enum members, device classes and port tables"
-    rule = ("checked twice: on the fresh import and again after a workload (bridge on default/new-firmware/custom ports hearing all 9 types, "
-            "both API classes used); every (device type, device class) pair is constructed for real (accept iff categories match); every type's model "
+    rule = ("checked on the fresh import and again after a workload (bridge on default/new-firmware/custom ports hearing all 9 types together with "
+            "undecodable / unknown-model / foreign datagrams and a callback that sometimes raises, a start that fails half way, both API classes used "
+            "incl. an empty login reply and a refused connection), the whole thing once in a normal and once in an optimised (-O) interpreter; every (device type, device class) pair is constructed for real (accept iff categories match); every type's model "
             "code / protocol type / category is inspected; every unordered pair of types is compared for code uniqueness; every "
             "category is looked up in both port tables; each evaluation is distinct by construction")
     level_text = ("Finite space enumerated completely on every run (exhaustive: true): all live DeviceType members x 4 classes, "
@@ -37,11 +51,17 @@ class C19(Prop):
     assumptions = ["class-to-category table and port numbers as written in the statement"]
     anchors = ["aioswitcher.device:SwitcherWaterHeater.__post_init__", "aioswitcher.device:SwitcherShutter.__post_init__",
                "aioswitcher.device:SwitcherThermostat.__post_init__", "aioswitcher.device:SwitcherPowerPlug.__post_init__"]
-    min_evaluations = {"quick": 120, "thorough": 120}
+    min_evaluations = {"quick": 300, "thorough": 300}
     exhaustive = {"quick": True, "thorough": True}
-    nshards = {"quick": 1, "thorough": 1}
+    nshards = {"quick": 2, "thorough": 2}
+
+    def worker_pyflags(self, shard):
+        # the same complete enumeration once more in an optimised interpreter (python -O): guards written as
+        # assertions or under `if __debug__:` vanish there
+        return ["-O"] if shard == 1 else []
 
     async def setup(self, ctx):
+        self.shard = ctx["shard"]
         import aioswitcher.api as api
         import aioswitcher.bridge as bridge
         import aioswitcher.device as device
@@ -61,25 +81,53 @@ class C19(Prop):
         """Ordinary use between the two invariant passes: a bridge hearing every device type on classic,
         new-firmware and custom ports, and both API classes talking to a device."""
         r = env.rng("C19", case["seed"])
-        rig = udp.UdpRig(0)
+        rig = udp.UdpRig(self.shard)
         loop = asyncio.get_running_loop()
         rig.install(loop)
         try:
             default_ports = [20002, 10002, 20003, 10003]
             port_sets = [rig.free_ports(2)]
-            if all(udp.can_bind(p) for p in default_ports):
+            if self.shard == 0 and all(udp.can_bind(p) for p in default_ports):
                 port_sets.insert(0, None)   # the library's own defaults (free inside the private network namespace)
             for ports in port_sets:
                 bridge = self.bridge.SwitcherBridge(rig.log.callback) if ports is None else self.bridge.SwitcherBridge(rig.log.callback, ports)
                 use = default_ports if ports is None else ports
+                rig.log.raise_on = lambda dev, n: n % 5 == 0     # a user callback that sometimes fails
                 async with bridge:
                     for p in use:
                         for j, model in enumerate(gen.MODELS):
                             d = gen.broadcast_desc(r, model, r.randrange(10 ** 6), f"{(j + 1) * 7919 % 0xEFFFFF:06x}")
-                            rig.send(p, rb.encode(d))
+                            good = rb.encode(d)
+                            rig.send(p, good)
+                            # the ugly side of real traffic: undecodable fields, unknown models, foreign bytes
+                            bad = bytearray(good)
+                            if model in ("RUNNER", "RUNNER_MINI"):
+                                bad[137:139] = b"\x01\x01"
+                            elif model == "BREEZE":
+                                bad[140] = 0x90
+                            else:
+                                bad[42] = 0xFF
+                            rig.send(p, bytes(bad))
+                            unk = bytearray(good)
+                            unk[74:76] = b"\xee\xee"
+                            rig.send(p, bytes(unk))
+                            rig.send(p, r.randbytes(r.randrange(0, 200)))
+                            rig.send(p, good)
                         if await rig.barrier(p) != "ok":
                             acc.inconclusive_because("workload: sentinel not delivered")
-                acc.count("workload_broadcasts", 9 * len(use))
+                rig.log.raise_on = None
+                acc.count("workload_datagrams", 9 * 5 * len(use))
+                # a start that fails half way
+                await asyncio.sleep(0)
+                await asyncio.sleep(0)
+                held = socket_on(use[-1])
+                if held is not None:
+                    try:
+                        await bridge.start()
+                        await bridge.stop()
+                    except OSError:
+                        acc.count("workload_failed_starts")
+                    held.close()
             acc.count("workload_devices_delivered", sum(1 for k, _ in rig.log.events if k == "device"))
         finally:
             rig.uninstall(loop)
@@ -91,7 +139,17 @@ class C19(Prop):
                 for op in op_list:
                     await cl.run(op, {"minutes": 0} if op == "turn_on" else {})
                     acc.count("workload_tcp_operations")
+                # and failures: an empty login reply, then a refused connection
+                dev.responder = lambda conn, idx, frame: td.EOF
+                await cl.run(op_list[0], {})
                 await cl.close()
+                dev.responder = td.auto_responder(family="shutter")
+                await dev.stop()
+                try:
+                    await trig.connect(dev, t, "a1b2c3", "18")
+                except OSError:
+                    acc.count("workload_refused_connects")
+                await dev.start()
         finally:
             await trig.close()
 
@@ -113,6 +171,7 @@ class C19(Prop):
         kind = case["kind"]
         if kind == "workload":
             await self._workload(case, acc)
+            acc.count("optimised_interpreter_passes" if not __debug__ else "normal_interpreter_passes")
             return
         real_violation = acc.violation
         phase = case.get("phase", "fresh")
